@@ -330,3 +330,50 @@ func (s *sim) history(blocks int) {
 		s.runBlock(tm, txs)
 	}
 }
+
+// demo is a scripted history reproducing the findings on the unchanged tree (B=4, W=2, E=3):
+// a node files the same relay-proof tree under evidence type 2 and a second tree under type 1
+// (same session), proves the type-2 claim three times with re-signed copies of one MsgProof, and
+// also gets a claim for the pseudo-session starting at height 6 accepted.
+func (s *sim) demo() {
+	tm := s.n.GenTime
+	s.t.Line("init", false, "init B=%d W=%d E=%d => %s", s.B, s.W, s.E, s.dump(s.cur(0, nil, tm)))
+	var pool []*evSet
+	var node chain.Key
+	var e2, e1, off *evSet
+	step := func(txs ...txReq) {
+		tm = tm.Add(time.Minute)
+		s.runBlock(tm, txs)
+	}
+	for s.n.Height < 4 {
+		step()
+	}
+	// pick a node that is in session (app a0, chain 0001, height 1): try all until a claim is accepted
+	for _, k := range s.nodes {
+		node = k
+		e2 = s.mkEvidence(1, node, s.apps[0], chainOK, 1, pc.ChallengeEvidence, 5, false)
+		pool = append(pool, e2)
+		step(s.claimTx(e2, "ok", &pool))
+		if e2.claimed {
+			break
+		}
+	}
+	e1 = s.mkEvidence(2, node, s.apps[0], chainOK, 1, pc.RelayEvidence, 7, false)
+	pool = append(pool, e1)
+	step(s.claimTx(e1, "ok", &pool))
+	for s.n.Height < 8 {
+		step()
+	}
+	for i := 0; i < 3; i++ {
+		ctx := s.cur(s.n.Height+1, s.n.LastBlockID.Hash, tm.Add(time.Minute))
+		step(s.proofTx(e2, "ok", s.requiredIndex(ctx, e2, e2.total)))
+	}
+	for _, k := range s.nodes {
+		off = s.mkEvidence(3, k, s.apps[0], chainOK, 6, pc.RelayEvidence, 5, false)
+		pool = append(pool, off)
+		step(s.claimTx(off, "ok", &pool))
+		if off.claimed {
+			break
+		}
+	}
+}
